@@ -15,7 +15,10 @@ def user_alphabets():
     two = {a: ("L" if a in "LVIMCAGSTPFYW" else "E") for a in T.AA}
     kvs = {a: ("K" if a in "KRH" else ("S" if a in "ST" else "A")) for a in T.AA}
     rot = {a: T.AA[(i + 1) % 20] for i, a in enumerate(T.AA)}
-    return [("identity", ident), ("two", two), ("three", kvs), ("rotation", rot)]
+    # not idempotent: the representative letters are themselves mapped on (L -> K, everything outside {L,K,D,E} -> L): a sequence made of
+    # representative letters only still has to be translated
+    chain = {a: ("K" if a in "LKDE" else "L") for a in T.AA}
+    return [("identity", ident), ("two", two), ("three", kvs), ("rotation", rot), ("chain", chain)]
 
 
 def reduce_ref(seq, size, ua):
@@ -382,9 +385,9 @@ def shard(cases):
 
 def run(tier, seed, t0):
     if tier == "quick":
-        N1, N2, sizes, uas, NL = 5, 4, [2, 3, 6, 20], ["two", "rotation"], 24
+        N1, N2, sizes, uas, NL = 5, 4, [2, 3, 6, 20], ["two", "rotation", "chain"], 24
     else:
-        N1, N2, sizes, uas, NL = 7, 6, list(T.SIZES), ["identity", "two", "three", "rotation"], 40
+        N1, N2, sizes, uas, NL = 7, 6, list(T.SIZES), ["identity", "two", "three", "rotation", "chain"], 40
     cases = []
     for L in range(1, N1 + 1):
         for w in spaces.shard_words("LKF", L, ""):
